@@ -349,6 +349,7 @@ def r05_7(ctx):
     fl = Flow(f.node, resolver=Resolver(f.node)).run()
     resets: Set[Tuple[str, str]] = set()
     unsets: Set[str] = set()
+    extra_unset: Dict[str, tuple] = {}
     for lp in ast.walk(f.node):
         if not (isinstance(lp, ast.For) and isinstance(lp.target, ast.Name) and ast.unparse(lp.iter) in ("self.unique_defined_syms", "self.unique_choices")):
             continue
@@ -362,7 +363,13 @@ def r05_7(ctx):
             if isinstance(n, ast.Call) and ast.unparse(n.func) == f"{lp.target.id}.unset_value":
                 gs = fl.guards_at(n) or set()
                 if (f"{coll}[*]._was_set", False) in gs or (f"{lp.target.id}._was_set", False) in gs:
-                    unsets.add(coll)
+                    # ... and on nothing else: a second condition (a member was mentioned, the entry is present, ...) keeps
+                    # user state the file did not set
+                    extra = sorted(k for k, p in gs if k not in ("replace", f"{coll}[*]._was_set", f"{lp.target.id}._was_set"))
+                    if extra:
+                        extra_unset[coll] = (extra, n)
+                    else:
+                        unsets.add(coll)
     for coll in ("self.unique_defined_syms", "self.unique_choices"):
         for slot in ("_was_set", "present_in_current_sdkconfig"):
             construct = f"Kconfig._load_config/{slot} is reset over {coll.split('.')[-1]} before the lines are read"
@@ -370,7 +377,13 @@ def r05_7(ctx):
              ctx.bad(construct, f"no loop over {coll} resets `{slot}`" + (" under `replace`" if slot == "_was_set" else "") +
                      ": a mark left by an earlier load / edit makes the replacing load skip `unset_value()` and the old pick survives", f.loc()))
         construct = f"Kconfig._load_config/whatever a replacing load did not set is unset ({coll.split('.')[-1]})"
-        (ctx.ok(construct, f.loc()) if coll in unsets else ctx.bad(construct, f"no `unset_value()` under `not _was_set` over {coll}", f.loc()))
+        if coll in unsets:
+            ctx.ok(construct, f.loc())
+        elif coll in extra_unset:
+            ctx.bad(construct, f"`unset_value()` over {coll} additionally depends on {extra_unset[coll][0]}: user state the file did not set survives the "
+                    "replacing load (a fresh instance loading the same file has none)", f.loc(extra_unset[coll][1]))
+        else:
+            ctx.bad(construct, f"no `unset_value()` under `not _was_set` over {coll}", f.loc())
     fc = repo.func(f"{CORE}:_finalize_choice")
     ctx.analysed(fc.qual)
     construct = "_finalize_choice/the choice type is settled before members inherit it"
